@@ -416,6 +416,10 @@ func leftoverDirectives(path string) ([]string, error) {
 func tokenStream(path string) (string, error) {
 	src, err := os.ReadFile(path)
 	if err != nil {
+		// output that does not compile (a C13 matter) was set aside by buildAll
+		src, err = os.ReadFile(path + ".broken")
+	}
+	if err != nil {
 		return "", err
 	}
 	fset := token.NewFileSet()
@@ -658,7 +662,7 @@ func (g *genSet) buildAll() {
 		for id, msg := range g.blame(se) {
 			if _, dup := g.broken[id]; !dup && g.written[id] {
 				g.broken[id] = msg
-				os.Remove(g.genFile[id])
+				os.Rename(g.genFile[id], g.genFile[id]+".broken")
 				removed++
 			}
 		}
